@@ -35,13 +35,22 @@ FIXED = ['{[#A][#B]}.{#A=OC[!],#B=[!]CC}',
          '{[#A][#B]}.{#A=[$]C[O;w=0.5],#B=[$][C;w=2]C}',
          '{[#A]}.{#A=CCO}', '{[#A]}.{#A=c1ccccc1}', '{[#A]}.{#A=CC(=O)[O-]}', '{[#A]|3}.{#A=[$]CC[$]}',
          '{[#A]1[#A][#A]1}.{#A=[$]CO[$]}', '{[#A].[#B]}.{#A=CC(=O)[O-],#B=[Na+]}']
+# multi-component inputs as plain SMILES (disjoint unions of pysmiles graphs: keys 0..n-1 in order, implicit hydrogens, so that the
+# hydrogens appended by embed_3d_via_rdkit interleave the components' atom indices)
+SMILES = ['CCO.O', 'CC(=O)[O-].[Na+]', 'C.C', 'CO.CO.O', 'c1ccccc1.O', '[NH4+].[Cl-]', 'CCO', 'OCC.N.CC#N', 'C=C.C#C',
+          'CC(C)O.OC']
+MULTI = ['{[#A].[#B]}.{#A=CCO,#B=O}', '{[#A].[#B].[#A]}.{#A=CO,#B=N}', '{[#A][#B].[#C]}.{#A=[$]CO,#B=[$]CC,#C=O}',
+         '{[#A].[#B]}.{#A=CC(=O)[O-],#B=[Na+]}']
 WEIGHTS = [0.5, 2.0, 12.011, 1.008, 0.25, 3, 1, 1]
 
 
 def rand_cgsmiles(rng, small=True):
     """a random resolvable CGsmiles string: chain with optional branch, terminals closed"""
-    if rng.random() < 0.25:
+    r = rng.random()
+    if r < 0.2:
         return rng.choice(FIXED)
+    if r < 0.3:
+        return rng.choice(MULTI)
     nmid = rng.randint(0, 2 if small else 4)
     frags = {}
     names = []
@@ -203,6 +212,10 @@ class C18(common.Prop):
             {'kind': 'embed', 's': '{[#A][#B]}.{#A=[$]CO,#B=[$]CC}', 'variant': 'sorted', 'perm': []},
             {'kind': 'embed', 's': '{[#A]}.{#A=CCO}', 'variant': 'offset', 'perm': [5]},
             {'kind': 'embed', 's': '{[#A]}.{#A=CCO}', 'variant': 'implicit_h', 'perm': []},
+            {'kind': 'embed', 's': '', 'smiles': 'CCO.O', 'variant': 'asis', 'perm': []},
+            {'kind': 'embed', 's': '', 'smiles': 'CC(=O)[O-].[Na+]', 'variant': 'asis', 'perm': []},
+            {'kind': 'embed', 's': '{[#A].[#B]}.{#A=CCO,#B=O}', 'variant': 'implicit_h', 'perm': []},
+            {'kind': 'embed', 's': '{[#A].[#B]}.{#A=CCO,#B=O}', 'variant': 'sorted', 'perm': []},
             {'kind': 'round', 's': '{[#A]}.{#A=CCO}', 'variant': 'asis', 'perm': [], 'conf': True, 'seed': 7},
             {'kind': 'round', 's': '{[#A]}.{#A=CCO}', 'variant': 'asis', 'perm': [], 'conf': False, 'seed': 7},
             {'kind': 'round', 's': '{[#A][#B]}.{#A=[$]CO,#B=[$]CC}', 'variant': 'asis', 'perm': [], 'conf': False, 'seed': 7},
@@ -225,15 +238,21 @@ class C18(common.Prop):
                 rng.shuffle(perm)
                 if variant == 'offset':
                     perm = [rng.choice([1, 2, 7, 100])]
-                out.append({'kind': 'embed', 's': s, 'variant': variant, 'perm': perm})
+                c = {'kind': 'embed', 's': s, 'variant': variant, 'perm': perm}
+                if rng.random() < 0.25:
+                    c['s'], c['smiles'] = '', rng.choice(SMILES)
+                out.append(c)
             elif r < 0.65:
                 variant = rng.choice(VARIANTS)
                 perm = list(range(64))
                 rng.shuffle(perm)
                 if variant == 'offset':
                     perm = [rng.choice([1, 2, 7, 100])]
-                out.append({'kind': 'round', 's': s, 'variant': variant, 'perm': perm, 'conf': rng.random() < 0.4,
-                            'seed': rng.randrange(1, 10 ** 6)})
+                c = {'kind': 'round', 's': s, 'variant': variant, 'perm': perm, 'conf': rng.random() < 0.4,
+                     'seed': rng.randrange(1, 10 ** 6)}
+                if rng.random() < 0.25:
+                    c['s'], c['smiles'] = '', rng.choice(SMILES)
+                out.append(c)
             else:
                 mode = rng.choice(['unit', 'unit', 'random', 'random', 'balanced'])
                 out.append({'kind': 'fwd', 's': s, 'weights': mode if mode != 'unit' else None,
@@ -250,7 +269,17 @@ class C18(common.Prop):
     # ------------------------------------------------------------------ implementation
     def run_impl(self, case):
         try:
-            cg, aa = resolve(case['s'])
+            if case.get('smiles'):
+                # disjoint union of the components' pysmiles graphs (read_smiles itself would join the components
+                # by a zero-order edge, on which RDKit's UFF refuses to work): keys 0..n-1 in order, implicit H
+                import pysmiles
+                parts = [pysmiles.read_smiles(x) for x in case['smiles'].split('.')]
+                aa = parts[0]
+                for h in parts[1:]:
+                    aa = nx.disjoint_union(aa, h)
+                cg = None
+            else:
+                cg, aa = resolve(case['s'])
         except Exception as exc:
             return {'skip': 'resolve:' + type(exc).__name__}
         kind = case['kind']
@@ -284,17 +313,22 @@ class C18(common.Prop):
         finally:
             cr.Chem, cr.networkx_to_rdkit = real_chem, real_n2r
         rd = rec.get('rd')
-        if rd is None or rd.GetNumConformers() == 0 or exc == 2:
+        if rd is None or exc == 2 or (exc == 1 and rd.GetNumConformers() == 0):
             # RDKit refused / failed before the write-back loop: third-party failure, not judged here
             return {'skip': 'rdkit:' + rec.get('exc', 'no-conformer')}
         nodes = rec['nodes']
         out = {'nodes': nodes, 'nrd': rd.GetNumAtoms(), 'exc': exc}
+        # a changed implementation may keep the coordinates elsewhere than in the conformer of the molecule
+        # returned by AddHs: then the atom identification is unavailable and only the executed clauses
+        # (every node has a position, bonding distances) are judged
+        out['obs_known'] = rd.GetNumConformers() > 0
         obs, pos = [], []
         if exc == 0:
             for n in G.nodes:
                 p = G.nodes[n].get('position')
                 if p is not None:
-                    obs.append([n, atom_of_position(rd, p)])
+                    if out['obs_known']:
+                        obs.append([n, atom_of_position(rd, p)])
                     pos.append([n, [float(x) for x in p]])
         out['obs'], out['pos'] = obs, pos
         out['bonds'] = [[u, v, 'H' in (G.nodes[u].get('element'), G.nodes[v].get('element'))]
@@ -395,7 +429,7 @@ class C18(common.Prop):
                 return 2
             own = {n: i for i, n in enumerate(impl['nodes'])}
             obs = dict((a, i) for a, i in impl['obs'])
-            if any(obs.get(n) != own[n] for n in impl['nodes']):
+            if impl.get('obs_known', True) and any(obs.get(n) != own[n] for n in impl['nodes']):
                 return 3
             for u, v, h in impl['bonds']:
                 d2 = sum((a - b) ** 2 for a, b in zip(pos[u], pos[v]))
